@@ -12,17 +12,21 @@ if git apply --check $SRC/patch.diff 2>/dev/null; then res="$res patch_applies=y
 cmake -G Ninja -B _build -S . -DCMAKE_BUILD_TYPE=RelWithDebInfo >/dev/null 2>&1 && cmake --build _build -j8 >/dev/null 2>&1 || res="$res orig_build=FAIL"
 DEMOFLAGS="-I$WT/include -I$WT/src $SRC/demo.c $WT/_build/liblcdb.a -lpthread -lm"
 cc -O1 -g $DEMOFLAGS -o $TT/demo_orig 2>$TT/cc.log || res="$res demo_compile=FAIL"
-(cd $TT && TEST_TMPDIR=$TT timeout 600 ./demo_orig >$TT/demo_orig.out 2>&1); res="$res demo_on_original_rc=$?"
+(cd $TT && TEST_TMPDIR=$TT timeout 600 ./demo_orig $TT/scratch-orig >$TT/demo_orig.out 2>&1); res="$res demo_on_original_rc=$?"
 # changed build + tests + demo
 git apply $SRC/patch.diff
 cmake --build _build -j8 >/dev/null 2>&1 || res="$res mut_build=FAIL"
 cc -O1 -g $DEMOFLAGS -o $TT/demo_mut 2>>$TT/cc.log
-(cd $TT && TEST_TMPDIR=$TT timeout 600 ./demo_mut >$TT/demo_mut.out 2>&1); res="$res demo_on_changed_rc=$?"
+(cd $TT && TEST_TMPDIR=$TT timeout 600 ./demo_mut $TT/scratch-mut >$TT/demo_mut.out 2>&1); res="$res demo_on_changed_rc=$?"
 TEST_TMPDIR=$TT ctest --test-dir _build -j4 --timeout 900 >$TT/ctest.out 2>&1
 if ! grep -q "100% tests passed" $TT/ctest.out; then
   # the machine is shared with other builds: give failed tests one quiet re-run before believing them
   res="$res first_ctest=\"$(grep 'tests passed' $TT/ctest.out | head -1) $(grep -A3 'The following tests FAILED' $TT/ctest.out | tail -3 | tr '\n' ' ')\""
-  TEST_TMPDIR=$TT ctest --test-dir _build -j1 --rerun-failed --timeout 900 >$TT/ctest.out 2>&1
+  for attempt in 1 2 3 4 5; do
+    TEST_TMPDIR=$TT ctest --test-dir _build -j1 --rerun-failed --timeout 900 >$TT/ctest.out 2>&1
+    grep -q "100% tests passed" $TT/ctest.out && break
+    sleep 20
+  done
 fi
 res="$res ctest=\"$(grep 'tests passed' $TT/ctest.out | head -1)\""
 echo "$res"
